@@ -33,17 +33,28 @@ def run(res):
     run_sequences(res)
 
 
+SPELL = [None]     # the random source of to_source's operand spellings (None: plain decimal)
+
+
 def to_source(case):
     """an instruction-level case as a line of assembler text"""
     _, _, m, ops = case.split(" ")
     if ops == "-":
         return "  " + m
 
+    def val(t):
+        """the value in one of the spellings the grammar has for it (radix prefixes, parentheses, sums, unary forms)"""
+        v = int(t)
+        k = SPELL[0].randrange(9) if SPELL[0] is not None else 0
+        if v < 0:
+            return [t, "(%s)" % t, "0%s" % t, "-(%d)" % -v, t, t, "-$%x" % -v, "(0-%d)" % -v, t][k]
+        return [t, "$%x" % v, "0x%X" % v, "0b" + bin(v)[2:], "(%d)" % v, "(%d+%d)" % (v // 2, v - v // 2), "~(~%d)" % v, "-(-%d)" % v, "%d*1" % v][k]
+
     def conv(o):
         if o[0] == "e":
-            return o[1:]
+            return val(o[1:])
         if "+q" in o:
-            return o[0] + "+" + o[3:]
+            return o[0] + "+" + val(o[3:])
         return o
     return "  %s %s" % (m, ", ".join(conv(o) for o in ops.split(",")))
 
@@ -121,6 +132,7 @@ def run_sequences(res):
     vh = C.build_harness("debug")
     exe = C.build_model()
     rng = random.Random(res.seed + 1)
+    SPELL[0] = rng
     pool = [c for c in encgen.legal("F")[::37] if c.split(" ")[2] not in ("jmp", "call", "lds", "sts")]
     seqs = sequences(rng, pool, 150 if res.tier == "quick" else 20000)
     cases = list(dict.fromkeys(c for _, parts in seqs for c, _ in parts if c))
